@@ -62,9 +62,11 @@ LEVEL_TEXT = ("Coq theorems, for ALL inputs, about executable models of bech32/b
               "child-number encoding, 74-byte extended-key round trip and Decode's validity rules. Models tied to the real code by "
               "differential execution; constants regenerated from the compiled tree each run.")
 LEVEL_NOTE = ("Partial: the descriptor clauses of C45 (Parse/ToString/Expand round trip, descriptor checksum) are not modelled. "
-              "Cross-network clause: proved only as 'round trip on the own network'; decoding on other networks is checked on generated "
-              "cases by the predicate (an address is accepted elsewhere only when the prefix/HRP is shared, which by design is the case "
-              "among testnet/testnet4/signet, and for base58 also regtest). One refuted corner is recorded as a theorem: "
-              "WitnessUnknown(1, 4e73) and WitnessUnknown(1, <32 bytes>) print like P2A / P2TR and decode to those types "
-              "(C45_address_roundtrip_noncanonical_refuted); ExtractDestination never produces them. Group laws of secp256k1 are a premise.")
+              "Cross-network clause: proved for witness addresses (never decoded as a witness destination under another HRP); for base58 "
+              "addresses decoding on other networks is checked on generated cases by the predicate (an address is accepted elsewhere only "
+              "when the version byte / HRP is shared, which by design is the case among testnet/testnet4/signet, and for base58 also regtest). "
+              "Two corners where the letter of the property is false are recorded as theorems and corpus cases: WitnessUnknown(1, 4e73) and "
+              "WitnessUnknown(1, <32 bytes>) print like P2A / P2TR and decode to those types (ExtractDestination never produces them); "
+              "changing the case of the only letter of a bech32 string (\"219460f373\" -> \"219460F373\") is a one-character substitution "
+              "that still decodes, by the case-insensitivity of the format. Group laws of secp256k1 are a premise.")
 TECHNIQUE = "Coq proof (induction, bit-level linear algebra, vm_compute search) + differential correspondence on generated cases"
